@@ -131,6 +131,14 @@ impl<'a> Job for Prove<'a> {
         let mut channel2 = ScriptChannel::<E, H>::new(al.clone());
         prover.build_layers(&mut channel2, evals.clone());
         let proof2 = prover.build_proof(&positions);
+        // an abandoned request (build_layers without build_proof), reset(), then the request again
+        let mut channel3 = ScriptChannel::<E, H>::new(al.clone());
+        prover.build_layers(&mut channel3, evals.clone());
+        prover.reset();
+        let reset_state = prover.num_layers() == 0;
+        let mut channel4 = ScriptChannel::<E, H>::new(al.clone());
+        prover.build_layers(&mut channel4, evals.clone());
+        let proof4 = prover.build_proof(&positions);
         // serialization round trip
         let bytes = proof.to_bytes();
         let proof3 = FriProof::read_from_bytes(&bytes);
@@ -176,6 +184,9 @@ impl<'a> Job for Prove<'a> {
         ));
 
         // ---- oracle
+        if proof4 != proof || channel4.commitments != channel.commitments || !reset_state {
+            o = o.fail("fri.prover.reuse", "proof after an abandoned request and reset() differs from the first");
+        }
         if proof2 != proof || channel2.commitments != channel.commitments {
             o = o.fail("fri.prover.reuse", "second proof on the same prover instance differs from the first");
         }
@@ -528,6 +539,10 @@ fn gen_prove(rng: &mut Rng, tier: Tier, count: usize, emit: &mut dyn FnMut(Strin
         if overshoot && !rng.chance(1, 12) {
             continue;
         }
+        // the model interpolates the last layer naively (quadratic): keep it at most 64 points in the quick tier
+        if tier == Tier::Quick && remainder_len(t, blowup, n, remdeg) * blowup > 64 {
+            continue;
+        }
         k += 1;
         let size = t * blowup;
         let layers = ref_num_layers(blowup, n, remdeg, size);
@@ -641,18 +656,67 @@ fn gen_big(rng: &mut Rng, tier: Tier, emit: &mut dyn FnMut(String)) {
     }
 }
 
+/// one modelled `prove` line (small domains) and one `e2e` line per schedule class (HARDENING.md 1-3), with the
+/// polynomial kind and the query-list kind rotating through the structured families
+fn gen_sched(rng: &mut Rng, tier: Tier, emit: &mut dyn FnMut(String)) {
+    let classes = schedule_classes(if tier == Tier::Quick { 12 } else { 14 });
+    let reps = if tier == Tier::Quick { 1 } else { 4 };
+    let mut k = 0usize;
+    for rep in 0..reps {
+        for c in &classes {
+            k += 1;
+            let size = 1usize << (c.logt + c.logb);
+            let t = 1usize << c.logt;
+            // the model interpolates the last layer naively (quadratic): keep it at most 64 points
+            if c.logt + c.logb <= 8 && (c.t << c.logb) <= 64 {
+                let fld = FIELDS[k % 4];
+                let of = of_for(fld).unwrap();
+                let hs = hashers_for(fld);
+                let hasher = hs[(k / 4) % hs.len()];
+                let alphas: Vec<O> = (0..c.layers + 1).map(|_| boundary_el(&of, rng)).collect();
+                let pk = POLY_KINDS[(k * 7 + rep) % POLY_KINDS.len()];
+                let coeffs = structured_poly(&of, pk, t, c.n, alphas[0], rng);
+                let qk = QUERY_KINDS[(k * 5 + rep) % QUERY_KINDS.len()];
+                let ps = structured_positions(qk, size, c.n, c.layers, rng);
+                emit(format!(
+                    "prove {} {} {} {} {} {} {} {} {}",
+                    fld,
+                    hasher,
+                    c.n,
+                    c.r,
+                    c.logb,
+                    c.logt + c.logb,
+                    of.print_list(&alphas),
+                    of.print_list(&coeffs),
+                    print_usizes(&ps)
+                ));
+            }
+            if size >= 8 {
+                let fld = FIELDS[(k + 1) % 4];
+                let hs = hashers_for(fld);
+                let hasher = hs[(k / 2) % hs.len()];
+                let pk = ["full", "zero", "const", "mono", "low"][(k + rep) % 5];
+                let qk = ["coin", "same", "collide", "row", "edge", "dups", "one"][(k / 5 + rep) % 7];
+                let nq = rng.range(1, 16.min(size as u64 - 1));
+                emit(format!("e2e {} {} {} {} {} {} {} {} {} {}", fld, hasher, c.n, c.r, c.logb, c.logt, nq, pk, qk, rng.u64() >> 1));
+            }
+        }
+    }
+}
+
 impl Prop for P {
     fn id(&self) -> &'static str {
         "C15"
     }
     fn gen(&self, rng: &mut Rng, tier: Tier, n: usize, emit: &mut dyn FnMut(String)) {
         let n = default_n(tier, 1200, 12_000, n);
-        let mut groups: Vec<Vec<String>> = vec![vec![], vec![], vec![], vec![], vec![], vec![]];
+        let mut groups: Vec<Vec<String>> = vec![vec![], vec![], vec![], vec![], vec![], vec![], vec![]];
+        gen_sched(&mut rng.fork(), tier, &mut |l| groups[6].push(l));
         gen_big(rng, tier, &mut |l| groups[5].push(l));
         gen_drp(rng, tier, &mut |l| groups[0].push(l));
         gen_pos(rng, tier, &mut |l| groups[1].push(l));
         gen_nl(&mut |l| groups[2].push(l));
-        gen_prove(rng, tier, n / 3, &mut |l| groups[3].push(l));
+        gen_prove(rng, tier, n / 4, &mut |l| groups[3].push(l));
         gen_e2e(rng, tier, n, &mut |l| groups[4].push(l));
         emit_interleaved(groups, emit);
     }
